@@ -224,6 +224,29 @@ fn history_inner(plan: &Plan, keyring: bool, big: u8, rep: &mut CaseReport) -> R
             }
         }
     }
+    // the tail of the history, chosen by `big`: calls that the storage refuses (a rollback to a
+    // snapshot that does not exist, relays for a group that does not exist) followed by an
+    // ordinary write - everything a call reported as done must be there after the reopen
+    if big % 2 == 1 {
+        use mdk_storage_traits::MdkStorageProvider;
+        use mdk_storage_traits::groups::GroupStorage;
+        let gid = w.gid.clone();
+        for m in w.actors() {
+            if !w.is_active(m) {
+                continue;
+            }
+            let Some(crate::world::AnyMdk::Sql(mdk)) = w.clients[m].mdk.as_ref() else { continue };
+            let st = mdk.provider.storage();
+            let refused = [
+                st.rollback_group_to_snapshot(&gid, "no-such-snapshot").is_err(),
+                st.replace_group_relays(&mdk_storage_traits::GroupId::from_slice(&[0xEE, 1, 2, 3]), Default::default()).is_err(),
+            ];
+            *rep.counters.entry("refused-storage-calls-before-the-last-write".into()).or_insert(0) += refused.iter().filter(|r| **r).count() as u64;
+            let rumor = EventBuilder::new(Kind::Custom(9), format!("after-refused-calls-{m}")).build(w.clients[m].keys.public_key());
+            let _ = mdk.create_message(&gid, rumor);
+        }
+        rep.classes.push("history-ending-with-refused-storage-calls".into());
+    }
     // close everything, then scan every file at rest
     let rollbacks: usize = w.actors().iter().map(|&m| w.clients[m].rollbacks.len()).sum();
     let paths: Vec<(usize, PathBuf, BackendKind)> = w.actors().iter().filter_map(|&m| w.clients[m].db_path.clone().map(|p| (m, p, w.clients[m].kind))).collect();
